@@ -257,6 +257,54 @@ theorem no_lost_wakeup_partial (h : Reach progS progR s) {t : Nat}
   | taken => rfl
   | closed => exact absurd hst' hc
 
+theorem run_reach {s s' : State} (h : Reach progS progR s) :
+    ∀ (l : List (Ag × Label)), run s l = some s' → Reach progS progR s' := by
+  intro l
+  induction l generalizing s with
+  | nil => intro hr; simp [run] at hr; subst hr; exact h
+  | cons x rest ih =>
+    intro hr
+    obtain ⟨a, lb⟩ := x
+    simp only [run] at hr
+    cases hs : step s a lb with
+    | none => simp [hs] at hr
+    | some s1 =>
+      simp [hs] at hr
+      exact ih (Reach.step h hs) hr
+
+/-- C05 / C06: the FULL no-lost-wakeup statement is FALSE on the code as it is (finding F18) — on the
+program and schedule of `C05_fails_F18_recv_parked_in_TAKEN_never_woken` the receiver is parked without a
+token, no wake is in flight, and `sender_count` is 0. -/
+theorem no_lost_wakeup_fails_F18 : ¬ no_lost_wakeup_statement f18S f18R := by
+  intro hst
+  have hw : (run (init f18S f18R) f18Sched).map (fun s =>
+      decide ((s.loc .R).m = .park ∧ (s.loc .R).k = .recv 7 ∧ s.tok 7 = false ∧ s.closer = none ∧ s.scount = 0 ∧
+        s.nextH = 2 ∧ (s.loc (.S 0)).m = .idle ∧ (s.loc (.S 1)).m = .idle)) = some true := by decide
+  cases hr : run (init f18S f18R) f18Sched with
+  | none => simp [hr] at hw
+  | some s =>
+    simp only [hr, Option.map_some, Option.some.injEq, decide_eq_true_eq] at hw
+    obtain ⟨hp, hk, ht, hc, h0, hn, hs0, hs1⟩ := hw
+    have hreach : Reach f18S f18R s := run_reach Reach.init _ hr
+    have hidle : ∀ b, (s.loc b).m = .park ∨ (s.loc b).m = .idle := by
+      intro b
+      cases b with
+      | R => exact .inl hp
+      | S i =>
+        right
+        match i with
+        | 0 => exact hs0
+        | 1 => exact hs1
+        | n + 2 => exact (reach_ainv hreach).j2.freshM (n + 2) (by omega)
+    have hnf : ¬ WakeInFlight s 7 := by
+      simp only [WakeInFlight, not_or, not_exists]
+      refine ⟨?_, ?_, by simp [hc]⟩
+      · intro b hb; rcases hidle b with h1 | h1 <;> rw [h1] at hb <;> cases hb
+      · intro b hb
+        simp only [inPW] at hb
+        rcases hidle b with h1 | h1 <;> rw [h1] at hb <;> simp at hb
+    exact (hst s 7 hreach hp hk ht hnf).2.2 h0
+
 /-- C06, PARTIAL (same excluded case F18), manual-poll form: while the waker of a poll that answered
 Pending is still registered (so no wake has been recorded for it) and no wake is in flight, the state is
 not SENT, it is CLOSED only if the receiver closed it itself, and EMPTY only with a live sender. -/
@@ -284,11 +332,17 @@ theorem dropfut_conserves_tokens {f : Nat} {rest : List Op} {s' : State}
     s'.st = s.st ∧ s'.slot = s.slot ∧ s'.waker = s.waker ∧ s'.armed = s.armed ∧ s'.scount = s.scount ∧
     s'.rdrop = s.rdrop ∧ s'.closed = s.closed ∧ s'.tok = s.tok ∧ s'.moved = s.moved ∧
     s'.received = s.received ∧ s'.dropped = s.dropped ∧ s'.sres = s.sres ∧ s'.mover = s.mover := by
-  simp only [step, stepCall, hp] at hs
+  simp only [step] at hs
+  unfold stepCall at hs
   split at hs
-  · split at hs
+  · rename_i op rest' hm hpr
+    rw [hp] at hpr
+    cases hpr
+    split at hs
     · cases hs
-    · simp at hs; subst hs; simp
+    · simp only [Option.some.injEq] at hs
+      subst hs
+      simp
   · cases hs
 
 end Fv.Props.OneshotB
